@@ -2,13 +2,15 @@
   C18 — "A request that already passed through this proxy instance is refused (no loops)".
 
   Property theorems over the request pipeline model (`Model/Req.lean`: `viaStep` inside
-  `processRequest`) and the C18 vocabulary of `Model/C18.lean`.  Only property theorems, the
-  full-strength statements the unchanged code violates (`def …_full : Prop`), witnesses and
-  non-vacuity examples live here; helper lemmas are in `Lemmas/C18a … C18e.lean`.
+  `processRequest`) and the C18 vocabulary of `Model/C18.lean`.  Only property theorems and
+  non-vacuity examples live here; helper lemmas are in `Lemmas/C18a … C18e.lean`.  The chain is ALL
+  Via field lines of the request (RFC 9110 §5.3) — the clauses `c18_chain_kept_full` and
+  `c18_loop_detected_full`, false of the code before the repair of F11 (only the first line was
+  read), are theorems now.
 
   Reading aids
     `viaLines fs`            all Via field lines of a message, wire order
-    `firstVia fs`            what `Header.Get("Via")` sees: the first of them ("" if none)
+    `viaChain lines`         the lines combined with ", " — what the Via modifier reads
     `viaElements lines`      SPEC view of the chain: all lines joined with ", ", split at commas
     `ownElement tag minor`   `1.0 <tag>` / `1.1 <tag>`
     `TagShape name tag`      tag = name ++ "-" ++ 20 lower-case hex digits
@@ -44,25 +46,26 @@ example : ownElement tagW 0 = bs "1.0 fwd-0123456789abcdef0123" ∧
     ownElement tagW 1 = bs "1.1 fwd-0123456789abcdef0123" := by decide +kernel
 
 /-- Modifier level: when `ViaModifier.ModifyRequest` lets a message pass, the Via value it writes
-    has the elements of the value it read followed by exactly one new element `proto tag`. -/
+    has the elements of the chain it read (all Via values of the map, combined) followed by exactly
+    one new element `proto tag`. -/
 theorem c18_modifier_appends {cfg : Cfg} {m : Nat} {h h4 : C16.HMap} (ht : TagClean cfg.tag)
     (hs : viaStep cfg m h = some h4) :
-    C16.HMap.get h4 viaName = some [newVia cfg.tag m (goGet h viaName)] ∧
-      elementsOf (newVia cfg.tag m (goGet h viaName)) =
-        elementsOf (goGet h viaName) ++ [ownElement cfg.tag m] := by
+    C16.HMap.get h4 viaName = some [newVia cfg.tag m (viaChainOf h)] ∧
+      elementsOf (newVia cfg.tag m (viaChainOf h)) =
+        elementsOf (viaChainOf h) ++ [ownElement cfg.tag m] := by
   refine ⟨?_, elementsOf_newVia ht m _⟩
   rw [(viaStep_some hs).1]
-  have := get_goSet_self h viaName (newVia cfg.tag m (goGet h viaName))
+  have := get_goSet_self h viaName (newVia cfg.tag m (viaChainOf h))
   rwa [viaName_canon] at this
 
 /-- Pipeline level: a forwarded request reaches the next hop with ONE Via field line whose elements
-    are the elements of the (first) Via line the client sent followed by `proto tag`, `proto` being
-    the client's protocol version. -/
+    are the elements of ALL Via lines the client sent, in order, followed by `proto tag`, `proto`
+    being the client's protocol version. -/
 theorem c18_appends_own_element {cfg : Cfg} {ctx : Ctx} {r : Request} {hop : Hop} {out : OutMsg}
     (h : processRequest cfg ctx r = .forwarded hop out) (hr : rulesAvoidVia cfg.rules = true)
     (hn : viaNominated r.fields = false) (ht : TagClean cfg.tag) :
     ∃ v, outVia out = [v] ∧
-      viaElements [v] = viaElements [firstVia r.fields] ++ [ownElement cfg.tag r.minor] := by
+      viaElements [v] = viaElements (viaLines r.fields) ++ [ownElement cfg.tag r.minor] := by
   obtain ⟨p, hp, hout, _, _⟩ := forwarded_out h hr
   obtain ⟨hget, _, hminor⟩ := preVia_via hp hn
   refine ⟨_, hout, ?_⟩
@@ -73,105 +76,109 @@ example : isForwarded (processRequest cfgW ctxW reqForeign) = true ∧
     rulesAvoidVia cfgW.rules = true ∧ viaNominated reqForeign.fields = false ∧
     tagShape (bs "fwd") tagW = true := by decide +kernel
 
-/-- … and when the client sent at most one Via field line, that is the whole chain:
-    every element already present is kept, in order, before the new one. -/
-theorem c18_chain_kept_partial {cfg : Cfg} {ctx : Ctx} {r : Request} {hop : Hop} {out : OutMsg}
+/-- full clause "after ANY Via elements already present" (formerly false of the code, F11d —
+    fixed): every element already present, on whichever Via field line, is kept, in order, before
+    the new one. -/
+theorem c18_chain_kept_full {cfg : Cfg} {ctx : Ctx} {r : Request} {hop : Hop} {out : OutMsg}
     (h : processRequest cfg ctx r = .forwarded hop out) (hr : rulesAvoidVia cfg.rules = true)
-    (hn : viaNominated r.fields = false) (ht : TagClean cfg.tag)
-    (h1 : (viaLines r.fields).length ≤ 1) :
+    (hn : viaNominated r.fields = false) (ht : TagClean cfg.tag) :
     viaElements (outVia out) = viaElements (viaLines r.fields) ++ [ownElement cfg.tag r.minor] := by
   obtain ⟨v, hv, he⟩ := c18_appends_own_element h hr hn ht
-  have hfirst : viaElements [firstVia r.fields] = viaElements (viaLines r.fields) := by
-    unfold firstVia
-    match hl : viaLines r.fields, h1 with
-    | [], _ => rfl
-    | [x], _ => rfl
-    | _ :: _ :: _, h1 => exact absurd h1 (by simp)
-  rw [hv, he, hfirst]
+  rw [hv, he]
 
-/-- full clause "after ANY Via elements already present" — FALSE of the unchanged code (F11):
-    elements on a second Via field line are dropped -/
-def c18_chain_kept_full : Prop :=
-  ∀ cfg ctx r hop out, processRequest cfg ctx r = .forwarded hop out →
-    rulesAvoidVia cfg.rules = true → viaNominated r.fields = false → TagClean cfg.tag →
-    viaElements (outVia out) = viaElements (viaLines r.fields) ++ [ownElement cfg.tag r.minor]
-
-/-- `Via: 1.0 fred` + `Via: 1.1 edge` is forwarded as `Via: 1.0 fred, 1.1 <tag>` -/
-theorem c18_chain_kept_witness :
-    ∃ out, processRequest cfgW ctxW (reqWith 1 [bs "1.0 fred", bs "1.1 edge"]) =
-        .forwarded (.direct (bs "origin.test")) out ∧
-      viaElements (outVia out) = [bs "1.0 fred", ownElement tagW 1] ∧
-      viaElements (viaLines (reqWith 1 [bs "1.0 fred", bs "1.1 edge"]).fields) =
-        [bs "1.0 fred", bs "1.1 edge"] := by
-  cases h : processRequest cfgW ctxW (reqWith 1 [bs "1.0 fred", bs "1.1 edge"]) with
-  | forwarded hop out =>
-    have h1 : (match Outcome.forwarded hop out with
-        | .forwarded hp o => hp == .direct (bs "origin.test") &&
-            viaElements (outVia o) == [bs "1.0 fred", ownElement tagW 1]
-        | _ => false) = true := by
-      rw [← h]; decide +kernel
-    simp only [Bool.and_eq_true, beq_iff_eq] at h1
-    exact ⟨out, by rw [h1.1], h1.2, by decide +kernel⟩
-  | refused s w =>
-    have : isForwarded (processRequest cfgW ctxW (reqWith 1 [bs "1.0 fred", bs "1.1 edge"])) = true := by
-      decide +kernel
-    rw [h] at this; exact absurd this (by simp [isForwarded])
-  | badRequest =>
-    have : isForwarded (processRequest cfgW ctxW (reqWith 1 [bs "1.0 fred", bs "1.1 edge"])) = true := by
-      decide +kernel
-    rw [h] at this; exact absurd this (by simp [isForwarded])
-  | unreadable =>
-    have : isForwarded (processRequest cfgW ctxW (reqWith 1 [bs "1.0 fred", bs "1.1 edge"])) = true := by
-      decide +kernel
-    rw [h] at this; exact absurd this (by simp [isForwarded])
+-- `Via: 1.0 fred` + `Via: 1.1 edge` is forwarded as `Via: 1.0 fred, 1.1 edge, 1.1 <tag>` (the
+-- former F11d witness: `1.1 edge` used to be dropped)
+example : (match processRequest cfgW ctxW (reqWith 1 [bs "1.0 fred", bs "1.1 edge"]) with
+      | .forwarded hp o => hp == .direct (bs "origin.test") &&
+          viaElements (outVia o) == [bs "1.0 fred", bs "1.1 edge", ownElement tagW 1]
+      | _ => false) = true ∧
+    viaElements (viaLines (reqWith 1 [bs "1.0 fred", bs "1.1 edge"]).fields) =
+      [bs "1.0 fred", bs "1.1 edge"] := by decide +kernel
 
 /-! ## B. A chain that contains this instance's element is refused: 400, no upstream action -/
 
-/-- If an element of the (first) Via line contains this instance's tag — in particular the element
-    `1.0 tag` / `1.1 tag` it emitted, wherever it stands in the line and whatever later hops
-    appended — the request is never forwarded (no hop, no message: no upstream action), and unless
-    an earlier check already refused it the answer is `400` for reason `loop`. -/
+/-- If an element of the Via chain — on ANY Via field line — contains this instance's tag, in
+    particular the element `1.0 tag` / `1.1 tag` it emitted, wherever it stands and whatever later
+    hops appended, the request is never forwarded (no hop, no message: no upstream action), and
+    unless an earlier check already refused it the answer is `400` for reason `loop`. -/
 theorem c18_loop_refused {cfg : Cfg} {ctx : Ctx} {r : Request}
     (hn : viaNominated r.fields = false) (hne : cfg.tag ≠ [])
-    (he : ∃ e ∈ viaElements [firstVia r.fields], cfg.tag <:+: e) :
+    (he : ∃ e ∈ viaElements (viaLines r.fields), cfg.tag <:+: e) :
     isForwarded (processRequest cfg ctx r) = false ∧
       (reachesVia cfg ctx r = true → processRequest cfg ctx r = .refused 400 .loop) := by
   obtain ⟨e, hmem, hte⟩ := he
-  have hi : cfg.tag <:+: firstVia r.fields := hte.trans (mem_elementsOf_infix hmem)
-  have hv : firstVia r.fields ≠ [] := fun h0 => hne (List.infix_nil.mp (h0 ▸ hi))
+  have hi : cfg.tag <:+: viaChain (viaLines r.fields) := hte.trans (mem_elementsOf_infix hmem)
+  have hv : viaChain (viaLines r.fields) ≠ [] := fun h0 => hne (List.infix_nil.mp (h0 ▸ hi))
   exact tagged_not_forwarded hn hv ((isInfix_iff _ _).mpr hi)
 
 /-- the special case the property names: the chain holds the very element this instance emitted -/
 theorem c18_own_element_refused {cfg : Cfg} {ctx : Ctx} {r : Request} {m : Nat}
     (hn : viaNominated r.fields = false) (hne : cfg.tag ≠ [])
-    (he : ownElement cfg.tag m ∈ viaElements [firstVia r.fields]) :
+    (he : ownElement cfg.tag m ∈ viaElements (viaLines r.fields)) :
     isForwarded (processRequest cfg ctx r) = false ∧
       (reachesVia cfg ctx r = true → processRequest cfg ctx r = .refused 400 .loop) :=
   c18_loop_refused hn hne ⟨_, he, tag_infix_ownElement _ _⟩
 
 example : viaNominated reqLoop.fields = false ∧ cfgW.tag ≠ [] ∧
-    ownElement cfgW.tag 1 ∈ viaElements [firstVia reqLoop.fields] ∧
+    ownElement cfgW.tag 1 ∈ viaElements (viaLines reqLoop.fields) ∧
     reachesVia cfgW ctxW reqLoop = true := by decide +kernel
+
+/-- full clause (formerly false of the code, F11c — fixed): the chain is ALL Via field lines
+    (RFC 9110 §5.3); a loop tag on any of them keeps the request from being forwarded -/
+theorem c18_loop_detected_full (cfg : Cfg) (ctx : Ctx) (r : Request) (hne : cfg.tag ≠ [])
+    (hn : viaNominated r.fields = false)
+    (he : ∃ e ∈ viaElements (viaLines r.fields), cfg.tag <:+: e) :
+    isForwarded (processRequest cfg ctx r) = false :=
+  (c18_loop_refused hn hne he).1
+
+-- `Via: 1.0 fred` / `Via: 1.1 <own tag>, 1.1 edge (x)`: this instance's element is on the second
+-- field line — the request is refused 400 `loop` (the former F11c witness: it used to be forwarded)
+example : cfgW.tag ≠ [] ∧ viaNominated reqSecondLine.fields = false ∧
+    (viaLines reqSecondLine.fields).length = 2 ∧
+    ownElement cfgW.tag 1 ∈ viaElements (viaLines reqSecondLine.fields) ∧
+    reachesVia cfgW ctxW reqSecondLine = true ∧
+    isForwarded (processRequest cfgW ctxW reqSecondLine) = false ∧
+    isLoopRefusal (processRequest cfgW ctxW reqSecondLine) = true := by decide +kernel
 
 /-! ## C. Chains of other proxies' elements are forwarded -/
 
-/-- If no element of the (first) Via line contains this instance's tag, the Via modifier does not
-    refuse: given no other refusal the request is forwarded. -/
+/-- If no element of the Via chain (all field lines) contains this instance's tag, the Via modifier
+    does not refuse: given no other refusal the request is forwarded. -/
 theorem c18_foreign_chain_forwarded {cfg : Cfg} {ctx : Ctx} {r : Request}
     (hn : viaNominated r.fields = false) (ht : TagClean cfg.tag)
-    (hf : ∀ e ∈ viaElements [firstVia r.fields], ¬ cfg.tag <:+: e)
-    (hreach : reachesVia cfg ctx r = true) :
+    (hf : ∀ e ∈ viaElements (viaLines r.fields), ¬ cfg.tag <:+: e)
+    (hreach : reachesVia cfg ctx r = true) (hup : cfg.upstream ≠ .failed) :
     isForwarded (processRequest cfg ctx r) = true := by
-  apply untagged_forwarded hn _ hreach
+  apply untagged_forwarded hn _ hreach hup
   intro _
   apply isInfix_false_of_not
   intro hi
   obtain ⟨e, he, hte⟩ := infix_element ht.ne ht.noComma ht.noWs hi
   exact hf e he hte
 
+/-- … and when the proxy function itself failed (`Upstream.failed`: PAC error) such a request gets
+    the route error — it is never answered as a loop -/
+theorem c18_foreign_chain_route_error {cfg : Cfg} {ctx : Ctx} {r : Request}
+    (hn : viaNominated r.fields = false) (ht : TagClean cfg.tag)
+    (hf : ∀ e ∈ viaElements (viaLines r.fields), ¬ cfg.tag <:+: e)
+    (hreach : reachesVia cfg ctx r = true) (hup : cfg.upstream = .failed) :
+    processRequest cfg ctx r = .routeError := by
+  have hi : viaChain (viaLines r.fields) ≠ [] → isInfix cfg.tag (viaChain (viaLines r.fields)) = false := by
+    intro _
+    apply isInfix_false_of_not
+    intro hi
+    obtain ⟨e, he, hte⟩ := infix_element ht.ne ht.noComma ht.noWs hi
+    exact hf e he hte
+  rcases untagged_passes hn hi hreach with ⟨hne, _⟩ | ⟨_, h⟩
+  · exact absurd hup hne
+  · exact h
+
 example : viaNominated reqForeign.fields = false ∧ tagShape (bs "fwd") cfgW.tag = true ∧
-    (viaElements [firstVia reqForeign.fields]).all (fun e => !isInfix cfgW.tag e) = true ∧
-    reachesVia cfgW ctxW reqForeign = true := by decide +kernel
+    (viaElements (viaLines reqForeign.fields)).all (fun e => !isInfix cfgW.tag e) = true ∧
+    reachesVia cfgW ctxW reqForeign = true ∧ cfgW.upstream ≠ .failed := by decide +kernel
+
+example : (match processRequest { cfgW with upstream := .failed } ctxW reqForeign with
+    | .routeError => true | _ => false) = true := by decide +kernel
 
 /-- Two instances configured with the same name (tags `name-<20 hex>` with different random
     parts): the tag of one does not occur in the element the other emits. -/
@@ -187,17 +194,20 @@ example : TagShape (bs "fwd") tagW ∧ TagShape (bs "fwd") tagX ∧ tagW ≠ tag
 theorem c18_same_name_forwarded {cfg : Cfg} {ctx : Ctx} {r : Request}
     (hn : viaNominated r.fields = false) (hs : TagShape cfg.name cfg.tag)
     (hname : cfg.name.all isTokenByte = true)
-    (hf : ∀ e ∈ viaElements [firstVia r.fields],
+    (hf : ∀ e ∈ viaElements (viaLines r.fields),
       ∃ t m, TagShape cfg.name t ∧ t ≠ cfg.tag ∧ e = ownElement t m)
-    (hreach : reachesVia cfg ctx r = true) :
+    (hreach : reachesVia cfg ctx r = true) (hup : cfg.upstream ≠ .failed) :
     isForwarded (processRequest cfg ctx r) = true := by
-  apply c18_foreign_chain_forwarded hn (hs.clean hname) _ hreach
+  apply c18_foreign_chain_forwarded hn (hs.clean hname) _ hreach hup
   intro e he
   obtain ⟨t, m, ht, hne, rfl⟩ := hf e he
   exact same_name_not_infix hs ht (fun h => hne h.symm) m
 
 example : isForwarded (processRequest cfgW ctxW (reqWith 1 [ownElement tagX 1])) = true ∧
-    isForwarded (processRequest cfgX ctxW (reqWith 1 [ownElement tagW 0])) = true := by decide +kernel
+    isForwarded (processRequest cfgX ctxW (reqWith 1 [ownElement tagW 0])) = true ∧
+    -- … also when the other instances' elements are spread over several Via lines
+    isForwarded (processRequest cfgW ctxW (reqWith 1 [ownElement tagX 1, ownElement tagX 0])) = true := by
+  decide +kernel
 
 /-! ## D. A forwarding loop terminates at its first repetition -/
 
@@ -214,8 +224,8 @@ theorem c18_self_loop_terminates {cfg : Cfg} {ctx ctx' : Ctx} {r : Request} {hop
         processRequest cfg ctx' (reinject out) = .refused 400 .loop) := by
   obtain ⟨p, _, hout, _, hop', auth', g', hw⟩ := forwarded_out h hr
   have hl : ∀ e ∈ out.fields, lower e.1 = e.1 := by rw [hw]; exact writeRequest_names_lower _ _ _
-  have hfv : firstVia (reinject out).fields = newVia cfg.tag p.g.minor (goGet p.h3 viaName) := by
-    unfold firstVia; rw [viaLines_reinject hl, hout]; rfl
+  have hfv : viaChain (viaLines (reinject out).fields) = newVia cfg.tag p.g.minor (viaChainOf p.h3) := by
+    rw [viaLines_reinject hl, hout]; rfl
   apply tagged_not_forwarded hn'
   · rw [hfv]; exact newVia_ne_nil _ _
   · rw [hfv]; exact (isInfix_iff _ _).mpr (tag_infix_newVia _ _ _)
@@ -241,12 +251,11 @@ theorem c18_two_instance_loop_terminates {A B : Cfg} {ctxA ctxB ctxA' : Ctx} {r 
   have hl1 : ∀ e ∈ o1.fields, lower e.1 = e.1 := by rw [hw1]; exact writeRequest_names_lower _ _ _
   have hl2 : ∀ e ∈ o2.fields, lower e.1 = e.1 := by rw [hw2]; exact writeRequest_names_lower _ _ _
   -- what B read is what A wrote
-  have hB : goGet p2.h3 viaName = newVia A.tag p1.g.minor (goGet p1.h3 viaName) := by
-    rw [(preVia_via hp2 hn1).1]
-    unfold firstVia; rw [viaLines_reinject hl1, hout1]; rfl
-  have hfv : firstVia (reinject o2).fields =
-      newVia B.tag p2.g.minor (newVia A.tag p1.g.minor (goGet p1.h3 viaName)) := by
-    unfold firstVia; rw [viaLines_reinject hl2, hout2, hB]; rfl
+  have hB : viaChainOf p2.h3 = newVia A.tag p1.g.minor (viaChainOf p1.h3) := by
+    rw [(preVia_via hp2 hn1).1, viaLines_reinject hl1, hout1]; rfl
+  have hfv : viaChain (viaLines (reinject o2).fields) =
+      newVia B.tag p2.g.minor (newVia A.tag p1.g.minor (viaChainOf p1.h3)) := by
+    rw [viaLines_reinject hl2, hout2, hB]; rfl
   apply tagged_not_forwarded hn2
   · rw [hfv]; exact newVia_ne_nil _ _
   · rw [hfv]
@@ -288,9 +297,11 @@ theorem c18_self_loop_bounded (cfg : Cfg) (ctx : Ctx) (r : Request) (fuel : Nat)
         | refused s w => simp
         | badRequest => simp
         | unreadable => simp
+        | routeError => simp
     | refused s w => simp
     | badRequest => simp
     | unreadable => simp
+    | routeError => simp
 
 /-- Bounded number of hops, two instances A → B → A → …: at most three passes. -/
 theorem c18_two_instance_loop_bounded (A B : Cfg) (ctxA ctxB : Ctx) (r : Request) (fuel : Nat)
@@ -347,50 +358,47 @@ theorem c18_two_instance_loop_bounded (A B : Cfg) (ctxA ctxB : Ctx) (r : Request
             | refused s w => simp
             | badRequest => simp
             | unreadable => simp
+            | routeError => simp
         | refused s w => simp
         | badRequest => simp
         | unreadable => simp
+        | routeError => simp
     | refused s w => simp
     | badRequest => simp
     | unreadable => simp
+    | routeError => simp
 
 /-! ## D'. The decidable form of the property (`holds` verb) is met by the model -/
 
-/-- For requests with at most one Via field line (the hypothesis that excludes F11) the outcome the
-    model computes passes the check `holdsSpec` that the harness applies to what the implementation
-    did: own element ⇒ 400; no element containing the tag ⇒ forwarded with `proto tag` appended. -/
-theorem c18_model_meets_spec_partial {cfg : Cfg} {ctx : Ctx} {r : Request}
+/-- For EVERY request (any number of Via field lines — the hypothesis that excluded F11 is gone) the
+    outcome the model computes passes the check `holdsSpec` that the harness applies to what the
+    implementation did: own element ⇒ 400; no element containing the tag ⇒ forwarded with
+    `proto tag` appended after all elements present. -/
+theorem c18_model_meets_spec {cfg : Cfg} {ctx : Ctx} {r : Request}
     (hr : rulesAvoidVia cfg.rules = true) (hn : viaNominated r.fields = false)
-    (ht : TagClean cfg.tag) (h1 : (viaLines r.fields).length ≤ 1)
-    (hreach : reachesVia cfg ctx r = true) :
+    (ht : TagClean cfg.tag)
+    (hreach : reachesVia cfg ctx r = true) (hup : cfg.upstream ≠ .failed) :
     ∃ obs, observe (processRequest cfg ctx r) = some obs ∧
       holdsSpec cfg.tag r.minor (viaLines r.fields) obs = .ok := by
-  have hfirst : viaElements (viaLines r.fields) = viaElements [firstVia r.fields] := by
-    unfold firstVia
-    match hl : viaLines r.fields, h1 with
-    | [], _ => rfl
-    | [x], _ => rfl
-    | _ :: _ :: _, h1 => exact absurd h1 (by simp)
-  by_cases hi : isInfix cfg.tag (firstVia r.fields) = true
-  · -- the tag is in the line: refused 400
+  by_cases hi : isInfix cfg.tag (viaChain (viaLines r.fields)) = true
+  · -- the tag is in the chain: refused 400
     obtain ⟨e, he, hte⟩ := infix_element ht.ne ht.noComma ht.noWs ((isInfix_iff _ _).mp hi)
     have hout := (c18_loop_refused (ctx := ctx) hn ht.ne ⟨e, he, hte⟩).2 hreach
     refine ⟨.refused 400, by rw [hout]; rfl, ?_⟩
     have hemb : (viaElements (viaLines r.fields)).any (isInfix cfg.tag) = true := by
-      rw [hfirst, List.any_eq_true]
+      rw [List.any_eq_true]
       exact ⟨e, he, (isInfix_iff _ _).mpr hte⟩
     unfold holdsSpec
     simp only [hemb]
     split <;> simp
-  · -- not in the line: forwarded, element appended
-    have hi' : isInfix cfg.tag (firstVia r.fields) = false := by simpa using hi
-    have hfw := untagged_forwarded (ctx := ctx) hn (fun _ => hi') hreach
+  · -- not in the chain: forwarded, element appended
+    have hi' : isInfix cfg.tag (viaChain (viaLines r.fields)) = false := by simpa using hi
+    have hfw := untagged_forwarded (ctx := ctx) hn (fun _ => hi') hreach hup
     cases hp : processRequest cfg ctx r with
     | forwarded hop out =>
       refine ⟨.forwarded (outVia out), rfl, ?_⟩
-      have hchain := c18_chain_kept_partial hp hr hn ht h1
+      have hchain := c18_chain_kept_full hp hr hn ht
       have hown : (viaElements (viaLines r.fields)).any (isOwnElement cfg.tag) = false := by
-        rw [hfirst]
         apply Bool.eq_false_iff.mpr
         intro hany
         obtain ⟨e, he, ho⟩ := List.any_eq_true.mp hany
@@ -398,7 +406,7 @@ theorem c18_model_meets_spec_partial {cfg : Cfg} {ctx : Ctx} {r : Request}
           unfold isOwnElement at ho
           rcases Bool.or_eq_true_iff.mp ho with h | h <;>
             (rw [beq_iff_eq.mp h]; exact tag_infix_ownElement _ _)
-        have : isInfix cfg.tag (firstVia r.fields) = true :=
+        have : isInfix cfg.tag (viaChain (viaLines r.fields)) = true :=
           (isInfix_iff _ _).mpr (hte.trans (mem_elementsOf_infix he))
         rw [hi'] at this
         exact absurd this (by simp)
@@ -407,53 +415,14 @@ theorem c18_model_meets_spec_partial {cfg : Cfg} {ctx : Ctx} {r : Request}
     | refused s w => rw [hp] at hfw; exact absurd hfw (by simp [isForwarded])
     | badRequest => rw [hp] at hfw; exact absurd hfw (by simp [isForwarded])
     | unreadable => rw [hp] at hfw; exact absurd hfw (by simp [isForwarded])
+    | routeError => rw [hp] at hfw; exact absurd hfw (by simp [isForwarded])
 
-example : rulesAvoidVia cfgW.rules = true ∧ viaNominated reqLoop.fields = false ∧
-    (viaLines reqLoop.fields).length ≤ 1 ∧ reachesVia cfgW ctxW reqLoop = true ∧
+example : rulesAvoidVia cfgW.rules = true ∧ viaNominated reqSecondLine.fields = false ∧
+    (viaLines reqSecondLine.fields).length = 2 ∧ reachesVia cfgW ctxW reqSecondLine = true ∧
+    cfgW.upstream ≠ .failed ∧
     holdsSpec cfgW.tag 1 (viaLines reqSecondLine.fields) (.forwarded [bs "1.0 fred, 1.1 x"]) =
-      .loopNotRefused := by decide +kernel
-
-/-! ## E. Full strength: a tag on ANY Via line — false of the unchanged code (F11) -/
-
-/-- full clause: the chain is ALL Via field lines (RFC 7230 §3.2.2) — FALSE: only the first line is
-    examined (`req.Header.Get("Via")`), a loop tag on a later line is not seen -/
-def c18_loop_detected_full : Prop :=
-  ∀ cfg ctx r, cfg.tag ≠ [] → viaNominated r.fields = false →
-    (∃ e ∈ viaElements (viaLines r.fields), cfg.tag <:+: e) →
-    isForwarded (processRequest cfg ctx r) = false
-
-/-- the clause under the hypothesis that excludes the defect class: at most one Via field line -/
-theorem c18_loop_detected_partial {cfg : Cfg} {ctx : Ctx} {r : Request} (hne : cfg.tag ≠ [])
-    (hn : viaNominated r.fields = false) (h1 : (viaLines r.fields).length ≤ 1)
-    (he : ∃ e ∈ viaElements (viaLines r.fields), cfg.tag <:+: e) :
-    isForwarded (processRequest cfg ctx r) = false ∧
-      (reachesVia cfg ctx r = true → processRequest cfg ctx r = .refused 400 .loop) := by
-  apply c18_loop_refused hn hne
-  have : viaElements (viaLines r.fields) = viaElements [firstVia r.fields] := by
-    unfold firstVia
-    match hl : viaLines r.fields, h1 with
-    | [], _ => rfl
-    | [x], _ => rfl
-    | _ :: _ :: _, h1 => exact absurd h1 (by simp)
-  rwa [this] at he
-
-example : cfgW.tag ≠ [] ∧ viaNominated reqLoop.fields = false ∧ (viaLines reqLoop.fields).length ≤ 1 ∧
-    (viaElements (viaLines reqLoop.fields)).any (fun e => isInfix cfgW.tag e) = true := by
-  decide +kernel
-
-/-- `Via: 1.0 fred` / `Via: 1.1 <own tag>, 1.1 edge (x)`: this instance's element is in the chain
-    (second field line), the request is forwarded all the same -/
-theorem c18_second_line_witness :
-    cfgW.tag ≠ [] ∧ viaNominated reqSecondLine.fields = false ∧
-      ownElement cfgW.tag 1 ∈ viaElements (viaLines reqSecondLine.fields) ∧
-      isForwarded (processRequest cfgW ctxW reqSecondLine) = true := by decide +kernel
-
-theorem c18_loop_detected_full_false : ¬ c18_loop_detected_full := by
-  intro h
-  obtain ⟨h1, h2, h3, h4⟩ := c18_second_line_witness
-  have := h cfgW ctxW reqSecondLine h1 h2 ⟨_, h3, tag_infix_ownElement _ _⟩
-  rw [h4] at this
-  exact absurd this (by simp)
+      .loopNotRefused ∧
+    holdsSpec cfgW.tag 1 (viaLines reqSecondLine.fields) (.refused 400) = .ok := by decide +kernel
 
 /-! ## F. Substring containment vs. element membership -/
 
